@@ -449,6 +449,9 @@ theorem mt_fmt_total (f : Fmt) (t : Tree) (h : AllToks C19.HasWord t) : ∃ s, f
   · exact ⟨_, rfl⟩
   · exact ⟨_, rfl⟩
   · exact ⟨_, rfl⟩
+  · exact ⟨_, rfl⟩
+  · exact ⟨_, rfl⟩
+  · exact ⟨_, rfl⟩
 
 theorem mt_addNewline_ok {r : Except Err Str} (h : ∃ s, r = .ok s) : ∃ s, addNewline r = .ok s := by
   obtain ⟨s, rfl⟩ := h
@@ -465,6 +468,7 @@ theorem mt_mem_treesOnly {results : List SentResult} {trees : List Tree} (h : tr
 /-- `print_` is total on results whose trees have words and, for the two Prolog formats, labels
     the printer knows; no result is an empty list of trees (`to_mathml` indexes `trees[0]`) -/
 theorem mt_printText_total (f : Fmt) (results : List SentResult)
+    (hx : f ≠ Fmt.xml ∧ f ≠ Fmt.jiggEn ∧ f ≠ Fmt.jiggJa)
     (hne : ∀ r ∈ results, r ≠ .parsed [])
     (hw : ∀ r ∈ results, ∀ ts ∈ scored r, AllToks C19.HasWord ts.1)
     (hen : f = Fmt.prologEn → ∀ r ∈ results, ∀ ts ∈ scored r, C19.EnPrologOK ts.1)
@@ -496,6 +500,9 @@ theorem mt_printText_total (f : Fmt) (results : List SentResult)
     obtain ⟨r, hr, ts, hts, rfl⟩ := mt_mem_treesOnly htrees ht
     exact ⟨hw r hr ts hts, hja rfl r hr ts hts⟩
   case json => exact ⟨_, rfl⟩
+  case xml => exact absurd rfl hx.1
+  case jiggEn => exact absurd rfl hx.2.1
+  case jiggJa => exact absurd rfl hx.2.2
   case html =>
     simp only [printText]
     apply mt_addNewline_ok
@@ -530,6 +537,7 @@ theorem mt_main_total : MainTotalStatement' := by
     exact mt_results_render en seen table categories roots [] o.cfg (some o.maxLength) x r hnd (hlex x hx)
       (mt_doc_hasWord hd _ (mt_zipSents_tokens doc scores x hx)) hxr
   apply mt_printText_total
+  · refine ⟨?_, ?_, ?_⟩ <;> (intro h; rw [h] at hfit; simp [fmtFits] at hfit)
   · intro r hr'
     obtain ⟨x, -, hxr⟩ := mt_mapExcept_mem _ _ _ hres r hr'
     exact mt_sentenceL_nonempty hxr
